@@ -861,7 +861,9 @@ pub fn install(st: &Setup) -> bool {
         }
         crate::trap::MMU_FD.store(sh.pm.fd as u64, SeqCst);
         crate::trap::MMU_CR3.store(st.root, SeqCst);
-        crate::cpu::CR[3].store(st.root, SeqCst);
+        // the low 12 bits of CR3 (PCID or PWT/PCD) vary from behaviour to behaviour
+        let low = [0u64, 0x18, 0xabc, 0x001, 0xfff, 0x7e7][((st.root >> 12) as usize + st.pool.len() + st.rix.unsigned_abs() as usize) % 6];
+        crate::cpu::CR[3].store(st.root | low, SeqCst);
         if st.rix >= 0 {
             sh.pm.write(st.root, st.rix as usize, st.root | 3);
             crate::trap::MMU_RIX.store(st.rix as u64, SeqCst);
